@@ -812,7 +812,12 @@ def check_reader(ctx, path, row, rule, armed):
     if not problems and isinstance(lay[0][1], int):
         R = Ranges(B)
         first = None
-        for bb in sorted(B.live_blocks()):
+        # the first read on the success path (block numbers say nothing about order once a helper has been spliced in)
+        rds = [bb for bb in sorted(B.live_blocks()) if B.blocks[bb]['t']['k'] == 'call' and prim_of(B.blocks[bb]['t']) and prim_of(B.blocks[bb]['t'])[0] == 'r']
+        fb = next((a for a in rds if all(a == b_ or B.block_dominates(a, b_) for b_ in rds)), None)
+        if fb is not None and 0 <= fb < len(B.blocks) and B.blocks[fb]['t']['k'] == 'call' and prim_of(B.blocks[fb]['t']) and prim_of(B.blocks[fb]['t'])[0] == 'r':
+            first = (fb, B.blocks[fb]['t'])
+        for bb in (sorted(B.live_blocks()) if first is None else ()):
             t = B.blocks[bb]['t']
             if t['k'] == 'call' and prim_of(t) and prim_of(t)[0] == 'r':
                 first = (bb, t)
